@@ -224,6 +224,22 @@ def read_from_haplotype(refseq, variants, hap_alleles, a, b, edge_ins=False, ins
     return "".join(seq), cig
 
 
+def aligner_like_end(refseq, start, seq, cig):
+    """What a read mapper reports for a read that ends inside the repeat behind an indel: when the bases from the last gap
+    (I or D) to the end of the read are identical to the reference if laid down without that gap, the gap-free (mismatch-free)
+    alignment is the optimal one and the gap disappears from the CIGAR. Returns the possibly rewritten cigar."""
+    if len(cig) < 3 or cig[-1][0] != 0 or cig[-2][0] not in (1, 2) or cig[-3][0] != 0:
+        return cig
+    y = cig[-1][1]
+    op, L = cig[-2]
+    gap_ref = start + sum(l for o, l in cig[:-2] if o in (0, 2, 3, 7, 8))  # reference position behind the last base before the gap
+    tail = seq[len(seq) - y - (L if op == 1 else 0):]
+    if gap_ref + len(tail) > len(refseq) or refseq[gap_ref : gap_ref + len(tail)] != tail:
+        return cig
+    head = list(cig[:-3])
+    return head + [(0, cig[-3][1] + len(tail))]
+
+
 def _reflen(cig):
     return sum(l for op, l in cig if op in (0, 2, 3, 7, 8))
 
@@ -463,6 +479,8 @@ def simulate(rng, tmp, p):
                     if r is None:
                         ok = False
                         break
+                    if p.get("aligner_like_ends") and rng.random() < p["aligner_like_ends"]:
+                        r = (r[0], aligner_like_end(refseq, x, r[0], r[1]))
                     built.append((x, r[0], r[1]))
                 if not ok:
                     continue
